@@ -3,8 +3,6 @@ package main
 // Maps (placeholder until the map model is built).
 
 import (
-	"go/token"
-	"go/types"
 	"golang.org/x/tools/go/ssa"
 )
 
@@ -16,7 +14,3 @@ func (x *Exec) mapDelete(fr *Frame, st *State, m, k Value)                 { uns
 func (x *Exec) mapGetSpec(c *CEnv, m, k Value) Value                       { unsupported("map index in contract"); return Value{} }
 func (x *Exec) rangeInit(fr *Frame, st *State, i *ssa.Range)               { unsupported("range over map/string") }
 func (x *Exec) rangeNext(fr *Frame, st *State, i *ssa.Next)                { unsupported("range next") }
-func (x *Exec) ifaceCall(fr *Frame, st *State, ic *FuncContract, c *ssa.CallCommon, recv Value, args []Value, pos token.Pos, resT types.Type) Value {
-	unsupported("interface contract call")
-	return Value{}
-}
